@@ -30,17 +30,24 @@ def signStep (X : Ctx α β) (priv e K : Bytes) : Option (Outcome (Bytes × Byte
       if rInt = 0 then none else
       let k := Bytes.toNatBE K
       let rkInt := rInt + k
-      let rkBytes := Bytes.ofNatMin rkInt
-      if rkBytes.length = 32 ∧ rkBytes = nBytes X then none else
-      let dInt := Bytes.toNatBE priv
-      let d1Int := dInt + 1
-      let buf := Point.pad32 (Bytes.ofNatMin d1Int)
-      match Field.scalarSetBytes X.S buf with
-      | .ok d1 =>
-        let d1Inv := Field.invert X.S d1
-        let sInt := (rkInt * Field.toNat X.S d1Inv + (X.n - rInt % X.n)) % X.n
-        if sInt = 0 then none else
-        some (.ok (ensure32 rInt, ensure32 sInt))
+      match fillBytes 33 rkInt with
+      | .ok rkBuf =>
+        match Utils.constantTimeCmp (some rkBuf) (some (nBytes33 X)) 33 with
+        | .ok c33 =>
+          if c33 = 0 then none else
+          let dInt := Bytes.toNatBE priv
+          let d1Int := dInt + 1
+          match fillBytes 32 d1Int with
+          | .ok buf =>
+            match Field.scalarSetBytes X.S buf with
+            | .ok d1 =>
+              let d1Inv := Field.invert X.S d1
+              let sInt := (rkInt * Field.toNat X.S d1Inv + (X.n - rInt % X.n)) % X.n
+              if sInt = 0 then none else
+              some (.ok (ensure32 rInt, ensure32 sInt))
+            | _ => some .panic
+          | _ => some .panic
+        | _ => some .panic
       | _ => some .panic
     | .err => some .err
     | .panic => some .panic
@@ -75,16 +82,31 @@ theorem signLoop_succ (X : Ctx α β) (priv e : Bytes) (f : Nat) (sc : Script) :
           simp only
           split
           · rfl
-          · split
-            · rfl
-            · cases Field.scalarSetBytes X.S (Point.pad32 (Bytes.ofNatMin (Bytes.toNatBE priv + 1))) with
+          · cases fillBytes 33 ((Point.getAffineX X.C kG + Bytes.toNatBE e) % X.n + Bytes.toNatBE K) with
+            | err => rfl
+            | panic => rfl
+            | ok rkBuf =>
+              simp only
+              cases Utils.constantTimeCmp (some rkBuf) (some (nBytes33 X)) 33 with
               | err => rfl
               | panic => rfl
-              | ok d1 =>
+              | ok c33 =>
                 simp only
                 split
                 · rfl
-                · rfl
+                · cases fillBytes 32 (Bytes.toNatBE priv + 1) with
+                  | err => rfl
+                  | panic => rfl
+                  | ok buf =>
+                    simp only
+                    cases Field.scalarSetBytes X.S buf with
+                    | err => rfl
+                    | panic => rfl
+                    | ok d1 =>
+                      simp only
+                      split
+                      · rfl
+                      · rfl
 
 /-- the loop over a list of candidates: result and index of the candidate used -/
 def signOver (X : Ctx α β) (priv e : Bytes) : List Bytes → Nat → Outcome ((Bytes × Bytes) × Nat)
